@@ -79,14 +79,23 @@ def sample_dict(spec):
     return {c['name']: dict(zip(c['idl'], [float(v) for v in chain_samples(c)])) for c in spec['chains']}
 
 
-def ref_from_dicts(d):
+def ref_from_dicts(d, scale=None):
+    """scale: {chain: magnitude of the raw factors}: the library rebuilds each factor as fluctuation + replica mean, so a
+    product is only accurate to eps * max|factor 1| * max|factor 2| (not to eps * |product|)."""
     names = sorted(d)
-    return RefObs.from_samples([[d[n][c] for c in sorted(d[n])] for n in names], names, [sorted(d[n]) for n in names])
+    r = RefObs.from_samples([[d[n][c] for c in sorted(d[n])] for n in names], names, [sorted(d[n]) for n in names])
+    if scale:
+        for n in names:
+            r.mag[n] = max(r.mag[n], scale[n])
+        r.vmag = max([r.vmag] + list(scale.values()))
+    return r
+
+
 
 
 def ref_reweight(wd, od, all_configs):
     prod = {n: {c: wd[n][c] * od[n][c] for c in od[n]} for n in od}
-    a = ref_from_dicts(prod)
+    a = ref_from_dicts(prod, {n: max(abs(v) for v in wd[n].values()) * max(abs(v) for v in od[n].values()) for n in od})
     b = ref_from_dicts(wd if all_configs else {n: {c: wd[n][c] for c in od[n]} for n in od})
     r = combine(lambda v: v[0] / v[1], [1 / b.value, -a.value / b.value ** 2], [a, b])
     r.reweighted = True
@@ -190,7 +199,8 @@ def correlate_oracle(spec):
         rc = pe.Corr([a, a]).correlate(pe.Corr([b, b]))
         r = rc.content[0][0]
     da, db = sample_dict(spec['a']), sample_dict(spec['b'])
-    rf = ref_from_dicts({n: {c: da[n][c] * db[n][c] for c in da[n]} for n in da})
+    rf = ref_from_dicts({n: {c: da[n][c] * db[n][c] for c in da[n]} for n in da},
+                        {n: max(abs(v) for v in da[n].values()) * max(abs(v) for v in db[n].values()) for n in da})
     rf.reweighted = spec['rw'] != 'none'
     cmp_obs(rf, r, 'correlate via %s' % spec['api'], rtol=1e-10, check_flag=True, check_form=True)
     kinds = sorted(set(gen.classify_idl(c['idl']) for c in spec['a']['chains']))
@@ -343,11 +353,11 @@ def qtop_oracle(spec):
 
 
 SUBS = [
-    Sub('reweight', reweight_case, reweight_oracle, {'quick': 250, 'thorough': 5000}, {'quick': 6, 'thorough': 16},
+    Sub('reweight', reweight_case, reweight_oracle, {'quick': 500, 'thorough': 5000}, {'quick': 6, 'thorough': 16},
         doc='reweight vs <w o>/<w> from per-configuration dictionaries'),
-    Sub('correlate', correlate_case, correlate_oracle, {'quick': 200, 'thorough': 3000}, {'quick': 2, 'thorough': 8},
+    Sub('correlate', correlate_case, correlate_oracle, {'quick': 400, 'thorough': 3000}, {'quick': 2, 'thorough': 8},
         doc='correlate = observable of per-configuration products'),
-    Sub('merge', merge_case, merge_oracle, {'quick': 200, 'thorough': 3000}, {'quick': 2, 'thorough': 8},
+    Sub('merge', merge_case, merge_oracle, {'quick': 400, 'thorough': 3000}, {'quick': 2, 'thorough': 8},
         doc='merge_obs over replica partitions'),
     Sub('reject', reject_case, reject_oracle, {'quick': 200, 'thorough': 3000}, {'quick': 2, 'thorough': 4},
         doc='un-alignable requests raise'),
